@@ -584,4 +584,65 @@ def c10(tier, seed):
     )
 
 
-PROPS = {"C10": c10, "C20": c20, "C05": c05, "C08": c08, "C07": c07, "C09": c09, "C15": c15, "C16": c16, "C17": c17, "C14": c14, "C12": c12, "C01": c01, "C02": c02, "C03": c03, "C04": c04, "C11": c11}
+def c13(tier, seed):
+    import configs
+    import random
+    from scenarios import cat, mr, scenario
+    rng = random.Random(seed * 17 + 3)
+    n = 5 if tier == "quick" else 30
+    y = dict(yvals=(0, 1, 3), ymeasures=("mean", "stddev"), valid_counts=True, weights=(1, 2))
+    base = [
+        scenario("cat_x_cat", [cat("A", 3, miss=[2]), cat("B", 4, miss=[4])], weighted=False),
+        scenario("cat_x_cat.w", [cat("A", 2), cat("B", 3)]),
+        scenario("cat_x_cat.sq", [cat("A", 2), cat("B", 3)], squared_weights=True),
+        scenario("mr_x_cat.sq", [mr("A", 2), cat("B", 3)], squared_weights=True),
+        scenario("cat_x_mr", [cat("A", 2), mr("B", 3)], weighted=False),
+        scenario("cat_x_cat_y", [cat("A", 2), cat("B", 3)], **y),
+        scenario("mr_x_cat_y", [mr("A", 2), cat("B", 3)], **y),
+    ]
+    pws = [None, {"alpha": [0.05, 0.1], "only_larger": False}, {"alpha": [0.01]},
+           {"alpha": [0.2, 0.05], "only_larger": True}, {"alpha": [0.5], "only_larger": False}]
+    scns = []
+    for i, s in enumerate(base):
+        s = dict(s)
+        rd, cd = s["dims"]
+        cfgs = [configs.DEFAULT]
+        cfgs += configs.insertion_configs(rd, cd, n, seed * 83 + i, max_ins=1)
+        cfgs += configs.order_configs(rd, cd, n, seed * 89 + i)
+        out = []
+        for c in cfgs:
+            c = dict(c)
+            pw = rng.choice(pws)
+            if pw:
+                c["pairwise"] = pw
+            out.append(c)
+        s["configs"] = out
+        scns.append(s)
+    return dict(
+        jobs=_value_jobs("C13", "c13", scns, tier, seed, single_pass=True,
+                         invariants=("EmitInv", "ThmPwAntisym"),
+                         bfs_budget=700 if tier == "quick" else 20000,
+                         sim_budget=300 if tier == "quick" else 10000, sim_extra=2),
+        rule="CAT and MR columns, unweighted / weighted without / with squared weights, mean "
+             "responses (Welch); subtotal and difference columns and rows as selected or "
+             "compared column; alpha pairs and only-larger flag; column order / hide transforms; x "
+             "TLC-enumerated bags; t by sign and square of a formal quotient, p by the Student-t "
+             "tail, index sets by the stated rule on the spec's statistics; antisymmetry and "
+             "t(a,a)=0 checked by TLC as a spec theorem in every state",
+        assumptions=ASSUME_COMMON + ["Student-t tail evaluated with scipy.stats.t (the library's "
+                                     "own dependency); p within 1e-9 of alpha accepted either way"],
+        feature_floor=("weights_differ",),
+    )
+
+
+def c18(tier, seed):
+    import session
+    return dict(custom=session.run_check)
+
+
+def c19(tier, seed):
+    import elementref
+    return dict(custom=elementref.run_check)
+
+
+PROPS = {"C18": c18, "C19": c19, "C13": c13, "C10": c10, "C20": c20, "C05": c05, "C08": c08, "C07": c07, "C09": c09, "C15": c15, "C16": c16, "C17": c17, "C14": c14, "C12": c12, "C01": c01, "C02": c02, "C03": c03, "C04": c04, "C11": c11}
